@@ -32,7 +32,8 @@ type Adv struct {
 	// Kind: f1-header | f1-data | f1-pair | f2-header | f2-data | f3-unsigned | f3-garbage-sig |
 	//       f4-chainid | f4-past | f4-future | f5-header-bytes | f5-data-bytes | foreign-address |
 	//       f6-replayed-txs (the PUBLIC transaction list of an earlier genuine block under forged metadata
-	//       naming a later height, signed by the adversary: same data commitment as genuine data)
+	//       naming a later height, signed by the adversary: same data commitment as genuine data) |
+	//       oversize-junk (a blob larger than anything the chain's own DA client would submit)
 	Kind string `json:"kind"`
 	// Target is the offset (from the initial height) of the block the item targets; == len(chain) means top+1.
 	Target int `json:"target"`
@@ -61,9 +62,12 @@ type Scenario struct {
 	// that name the proposer's address with the adversary's key (a node whose first contact with that
 	// address is adversarial material). Decoding must not leave anything behind.
 	Poison bool `json:"poison,omitempty"`
+	// ViaClient: the full node reads the DA layer through its real DA client (da/jsonrpc.API), whose own batch
+	// limit is the size of the largest genuine blob (what the proposer could submit through the same client).
+	ViaClient bool `json:"via_client,omitempty"`
 }
 
-var kinds = []string{"f8-data-meta-rewrite", "f8-data-meta-rewrite", "f7-header-copy", "f7-header-copy", "f6-replayed-txs", "f6-replayed-txs", "f1-header", "f1-data", "f1-pair", "f1-pair", "f2-header", "f2-data", "f3-unsigned", "f3-garbage-sig", "f4-chainid", "f4-past", "f4-future", "f5-header-bytes", "f5-data-bytes", "foreign-address"}
+var kinds = []string{"oversize-junk", "f8-data-meta-rewrite", "f8-data-meta-rewrite", "f7-header-copy", "f7-header-copy", "f6-replayed-txs", "f6-replayed-txs", "f1-header", "f1-data", "f1-pair", "f1-pair", "f2-header", "f2-data", "f3-unsigned", "f3-garbage-sig", "f4-chainid", "f4-past", "f4-future", "f5-header-bytes", "f5-data-bytes", "foreign-address"}
 
 func gen(t *rapid.T) Scenario {
 	sc := Scenario{InitialHeight: c02gen.GenInitial(t)}
@@ -75,6 +79,7 @@ func gen(t *rapid.T) Scenario {
 	if rapid.IntRange(0, 2).Draw(t, "p2ponly") == 0 {
 		sc.P2POnly = rapid.IntRange(1, len(sc.Chain)).Draw(t, "p2ponlyn")
 	}
+	sc.ViaClient = rapid.IntRange(0, 2).Draw(t, "viaclient") == 0
 	n := rapid.IntRange(1, 4).Draw(t, "nadv")
 	for i := 0; i < n; i++ {
 		a := Adv{Kind: rapid.SampledFrom(kinds).Draw(t, "kind"), Target: rapid.IntRange(1, len(sc.Chain)).Draw(t, "target"),
@@ -303,6 +308,14 @@ func build(a Adv, c *fw.Chain) item {
 			h.ProposerAddress = types.KeyAddress(advPub)
 			h.Signer.Address = types.KeyAddress(advPub)
 		})
+	case "oversize-junk":
+		b := make([]byte, maxGenuineBlob(c)+1+a.Mut*7)
+		x := uint32(a.Mut*7919 + 1)
+		for k := range b {
+			x = x*1664525 + 1013904223
+			b[k] = byte(x >> 24)
+		}
+		it.headerBlob = b
 	case "f5-header-bytes":
 		b := append([]byte(nil), c.Blocks[minInt(tgt, top-1)].HeaderBlob...)
 		mutate(b, a.Mut)
@@ -375,6 +388,15 @@ func commitOf(txs [][]byte) []byte {
 
 func sha256Sum(b []byte) []byte { s := sha256.Sum256(b); return s[:] }
 
+// maxGenuineBlob is the size of the largest blob the proposer published.
+func maxGenuineBlob(c *fw.Chain) int {
+	m := 0
+	for _, b := range c.Blocks {
+		m = maxInt(m, maxInt(len(b.HeaderBlob), len(b.DataBlob)))
+	}
+	return m
+}
+
 func maxInt(a, b int) int {
 	if a > b {
 		return a
@@ -406,8 +428,14 @@ func mutate(b []byte, m int) {
 
 // world runs a full node over the DA double with the genuine blobs (one DA height per block) and,
 // optionally, the adversarial items; returns the node after quiescence.
-func runWorld(c *fw.Chain, items []item, withAdv bool, root string, p2pOnly int) (*fw.Full, *world.Verdict) {
+func runWorld(c *fw.Chain, items []item, withAdv bool, root string, p2pOnly int, viaClient bool) (*fw.Full, *world.Verdict) {
 	da := world.NewDADbl(0)
+	if viaClient {
+		cc := *c
+		cc.Opts.ViaDAClient = true
+		cc.Opts.DAClientLimit = uint64(maxGenuineBlob(c))
+		c = &cc
+	}
 	f, err := fw.NewFull(c, root, da)
 	if err != nil {
 		v := world.Fail("C03/start", "full node does not start: %v", err)
@@ -567,16 +595,19 @@ func run(sc Scenario, dir string) world.Verdict {
 			if a.Copies > 100 && a.Ingress == "da" {
 				labels = append(labels, "da-flood>100-blobs-at-one-height")
 			}
+			if sc.ViaClient {
+				labels = append(labels, "through-the-real-da-client")
+			}
 			if items[i].hdr != nil || items[i].sd != nil {
 				couldApply = true
 			}
 		}
-		fa, v := runWorld(c, items, false, root+"/a", sc.P2POnly)
+		fa, v := runWorld(c, items, false, root+"/a", sc.P2POnly, sc.ViaClient)
 		if v != nil {
 			return *v
 		}
 		defer fa.Stop()
-		fb, v := runWorld(c, items, true, root+"/b", sc.P2POnly)
+		fb, v := runWorld(c, items, true, root+"/b", sc.P2POnly, sc.ViaClient)
 		if v != nil {
 			return *v
 		}
